@@ -22,7 +22,8 @@ import (
 
 // handleError handles an error according to the options set for the parser
 func (p *parser) handleError(u *Url, errorType errors.ErrorType, failure bool) error {
-	e := errors.Error(errorType, u.inputUrl, failure)
+	// a validation error that makes the parse fail (fail-on-validation-error mode) is a failure, not a warning
+	e := errors.Error(errorType, u.inputUrl, failure || p.opts.failOnValidationError)
 	if p.opts.reportValidationErrors {
 		u.validationErrors = append(u.validationErrors, e)
 	}
@@ -34,7 +35,7 @@ func (p *parser) handleError(u *Url, errorType errors.ErrorType, failure bool) e
 
 // handleErrorWithDescription handles an error according to the options set for the parser
 func (p *parser) handleErrorWithDescription(u *Url, errorType errors.ErrorType, failure bool, descr string) error {
-	e := errors.ErrorWithDescr(errorType, descr, u.inputUrl, failure)
+	e := errors.ErrorWithDescr(errorType, descr, u.inputUrl, failure || p.opts.failOnValidationError)
 	if p.opts.reportValidationErrors {
 		u.validationErrors = append(u.validationErrors, e)
 	}
@@ -46,7 +47,7 @@ func (p *parser) handleErrorWithDescription(u *Url, errorType errors.ErrorType, 
 
 // handleWrappedError handles an error according to the options set for the parser
 func (p *parser) handleWrappedError(u *Url, errorType errors.ErrorType, failure bool, cause error) error {
-	e := errors.Wrap(cause, errorType, u.inputUrl, failure)
+	e := errors.Wrap(cause, errorType, u.inputUrl, failure || p.opts.failOnValidationError)
 	if p.opts.reportValidationErrors {
 		u.validationErrors = append(u.validationErrors, e)
 	}
